@@ -109,7 +109,12 @@ func main() {
 		bad++
 	}
 	for _, r := range in.Rows {
-		tok := &token.Token{Type: token.Type(r.E.Typ), Lit: b(r.E.Lit), Pos: token.Pos{Offset: r.E.Off, Line: r.E.Line, Column: r.E.Col}}
+		// the lexeme is a window into the source text, as a lexer hands it out: its capacity reaches
+		// to the end of the source
+		lit := b(r.E.Lit)
+		source := append(append([]byte("<<"), lit...), []byte(">> the rest of the source text\n")...)
+		pristine := string(source)
+		tok := &token.Token{Type: token.Type(r.E.Typ), Lit: source[2 : 2+len(lit)], Pos: token.Pos{Offset: r.E.Off, Line: r.E.Line, Column: r.E.Col}}
 		if len(r.E.Src) > 0 {
 			tok.Pos.Context = src(b(r.E.Src))
 		}
@@ -136,6 +141,9 @@ func main() {
 		}
 		if got, _ := call(tok.Pos.String); got != string(b(r.Pos)) {
 			report("Pos.String()", r, got, b(r.Pos))
+		}
+		if string(source) != pristine {
+			report("rendering the error wrote into the source text", r, string(source), []byte(pristine))
 		}
 	}
 	fmt.Printf("VERIF-STATS rows=%d mismatches=%d\n", len(in.Rows), bad)
@@ -197,7 +205,7 @@ func (c *Ctx) errMsgLeg() {
 	c.Add("evaluations", int64(out.N)*5)
 	c.Add("traces_validated_against_impl", int64(out.N))
 	c.Set("error_rendering", map[string]any{"error_values_enumerated_by_tlc": out.N, "max_list_all_names": maxList, "max_list_few_names": maxLong,
-		"replayed_on": "errors.Error.Error (twice), Error.String, token.Pos.String of a generated parser", "properties_on_the_model": []string{"ShowsExactlyTheExpected", "ShowsPosition", "ShowsLexeme"}})
+		"replayed_on": "errors.Error.Error (twice), Error.String, token.Pos.String of a generated parser; the lexeme is a window into a source buffer that rendering must leave untouched", "properties_on_the_model": []string{"ShowsExactlyTheExpected", "ShowsPosition", "ShowsLexeme"}})
 }
 
 func replayErrMsg(c *Ctx, r *Replay) (bool, string) {
